@@ -237,6 +237,7 @@ def main():
             "rule": cfg["rule"],
             "samples": stats.get("samples", [])[:8] or ["(no cases run)"],
             "input_distribution": stats.get("stats", {}),
+            "driver_counts": counters.get("driver", {}),
             "impl_violates_spec": counters["impl_violates_spec"] + counters["harness_fail"] + counters["validator_fail"],
             "model_disagrees_impl": counters["model_disagrees_impl"],
             "known_findings_matched": counters["known"],
@@ -342,6 +343,12 @@ def compare(prop, cfg, sd, counters, violations, tie_broken, distinct):
             continue
         mod.setdefault(parts[0], {}).setdefault(parts[1], []).append(parts[2] if len(parts) > 2 else "")
     nontrivial = cfg.get("nontrivial")
+    for cid, tags in mod.items():
+        for cl in tags.get("C", []):
+            kv = cl.split(" ")
+            if len(kv) == 2 and kv[1].isdigit():
+                counters.setdefault("driver", {})
+                counters["driver"][kv[0]] = counters["driver"].get(kv[0], 0) + int(kv[1])
     for cid, req in reqs.items():
         counters["cases"] += 1
         im = imp.get(cid, {})
